@@ -124,8 +124,8 @@ static int gate_recv(char *buf, size_t cap)
 }
 static void ev_end(struct jb *j)
 {
-  if (gate_fd >= 0) { jb_kv_i(j, "n", ++seq); jb_raw(j, "}"); gate_send('E', j); }
-  else if (trace_fd >= 0) { jb_kv_i(j, "n", ++seq); jb_raw(j, "}\n"); sendall(trace_fd, j->b, j->n); }
+  if (gate_fd >= 0) { jb_kv_i(j, "n", ++seq); jb_kv_i(j, "k", ncalls); jb_raw(j, "}"); gate_send('E', j); }
+  else if (trace_fd >= 0) { jb_kv_i(j, "n", ++seq); jb_kv_i(j, "k", ncalls); jb_raw(j, "}\n"); sendall(trace_fd, j->b, j->n); }
 }
 static int active(void) { return trace_fd >= 0 || gate_fd >= 0; }
 
@@ -607,7 +607,12 @@ static void trace_exit(int code)
 }
 void _exit(int code) { ENTER(); trace_exit(code); r__exit(code); }
 void _Exit(int code) { ENTER(); trace_exit(code); r__exit(code); }
-static void at_exit_hook(void) { /* exit() from main's return: status unknown here; the controller has waitpid */ }
+static void at_exit_hook(void)
+{ /* exit() or return from main: the status is not known here (the parent's waitpid has it) */
+  static struct jb j;
+  if (busy || !active()) return;
+  busy = 1; ev_begin(&j, "exit"); jb_kv_i(&j, "status", -1); ev_end(&j); busy = 0;
+}
 
 pid_t waitpid(pid_t pid, int *wstat, int opts)
 {
